@@ -147,6 +147,8 @@ impl Monitor for C04 {
     fn sizes(&self, tier: Tier) -> Sizes { match tier { Tier::Quick => Sizes { cases: 12_000, min_nontrivial: 4_000 }, Tier::Thorough => Sizes { cases: 600_000, min_nontrivial: 200_000 } } }
 
     fn generate(&self, rng: &mut Rng, _tier: Tier) -> J {
+        // groups of 100-400 values under PERCENTILE at fractions for which neighbouring rank rules differ
+        if rng.chance(1, 40) { let z = rng.chance(1, 4); return crate::monitors::relcommon::gen_percentile_case(rng, 100, 400, z); }
         let js = rng.chance(2, 3);
         let allc = rng.below(2) == 0;
         let t = std_table(rng, "t", js, allc);
